@@ -155,6 +155,67 @@ Theorem C19_manifest_is_sorted_map :
 Proof. intros m. split; [exact (finalize_perm m)|exact (finalize_sorted m)]. Qed.
 Print Assumptions C19_manifest_is_sorted_map.
 
+(* ---------------- writer ref reuse (interrupted-and-retried conversions) ---------------- *)
+(* The writer ref names the source layer only.  For EVERY state of the ingests (whatever an earlier, interrupted conversion
+   with whatever options left under the ref) a completed conversion commits exactly the bytes of its own build, leaves
+   no ingest under its ref and does not touch other refs. *)
+Theorem C19_retry_commits_new_build_only :
+  forall (byte : Type) (s : @wst byte) (r : N) (bs : list byte),
+    let '(s', out) := attempt_step s (Att r bs None) in
+    out = Some bs /\ w_blobs s' = bs :: w_blobs s /\ alookup (w_ing s') r = None
+    /\ (forall r', r <> r' -> alookup (w_ing s') r' = alookup (w_ing s) r').
+Proof. intros byte s r bs. exact (attempt_completed s r bs). Qed.
+Print Assumptions C19_retry_commits_new_build_only.
+
+(* Every history of conversion attempts over any refs — layers interleaved, any number of interruptions at any byte,
+   retries whose builds differ arbitrarily: each attempt commits its own build or (interrupted) nothing, and the blobs
+   committed are exactly the builds of the completed attempts. *)
+Theorem C19_writer_histories :
+  forall (byte : Type) (l : list (@attempt byte)) (s : wst),
+    snd (run_attempts s l) = map expected l
+    /\ w_blobs (fst (run_attempts s l))
+       = rev (flat_map (fun a => match expected a with Some b => [b] | None => [] end) l) ++ w_blobs s.
+Proof. intros byte l s. exact (run_attempts_spec l s). Qed.
+Print Assumptions C19_writer_histories.
+
+(* Truncate(0) is what this rests on.  Without it the resumed writer makes Commit fail for every non-empty leftover (no
+   mixed blob, but no progress either); resuming by skipping the offset commits a blob that is not the new build. *)
+Theorem C19_no_truncate_never_commits :
+  forall (byte : Type) (s : @wst byte) (r : N) (bs : list byte),
+    resume s r <> [] -> bs <> [] -> snd (attempt_step_resume s (Att r bs None)) = None.
+Proof. intros byte s r bs. exact (resume_variant_fails s r bs). Qed.
+Print Assumptions C19_no_truncate_never_commits.
+
+Theorem C19_skip_offset_variant_refuted :
+  exists (s : @wst N) a d, snd (attempt_step_skip s a) = Some d /\ expected a <> Some d.
+Proof. exact skip_variant_refuted. Qed.
+Print Assumptions C19_skip_offset_variant_refuted.
+
+(* non-vacuity: layer 7 interrupted twice with two different builds, layer 9 interrupted, then both complete *)
+Example C19_nonvacuous_writer :
+  let l := [Att 7%N [1; 2; 3; 4]%N (Some 2); Att 9%N [5; 6]%N (Some 1); Att 7%N [8; 8; 8]%N (Some 1); Att 7%N [9; 9]%N None; Att 9%N [5; 6]%N None] in
+  run_attempts (mkW [(7%N, [0%N; 0%N])] []) l
+  = (mkW [] [[5; 6]; [9; 9]]%N, [None; None; None; Some [9; 9]; Some [5; 6]]%N).
+Proof. vm_compute. reflexivity. Qed.
+
+(* ---------------- external-TOC compressor state between TOC generation and TOC storage ---------------- *)
+(* Any interleaving of the conversions of one converter instance: the TOC a conversion stores and records for its layer
+   digest is the TOC that same conversion generated (one GzipCompression per conversion), whatever other conversions
+   generate or store in between. *)
+Theorem C19_stored_toc_is_own_toc :
+  forall (os1 os2 : list cop) (s : cst) (i : N) (t : N * N) (d : N),
+    no_gen i os2 ->
+    alookup (c_map (crun false s (os1 ++ GenTOC i t :: os2 ++ [StoreTOC i d]))) d = Some t.
+Proof. exact store_gets_own_toc. Qed.
+Print Assumptions C19_stored_toc_is_own_toc.
+
+(* ... and this is false for a compressor shared by the conversions (generate A, generate B, store A). *)
+Theorem C19_shared_compressor_refuted :
+  exists os i t d, (exists os1 os2, os = os1 ++ GenTOC i t :: os2 ++ [StoreTOC i d] /\ no_gen i os2)
+    /\ alookup (c_map (crun true (mkC [] []) os)) d <> Some t.
+Proof. exact shared_compressor_refuted. Qed.
+Print Assumptions C19_shared_compressor_refuted.
+
 (* ---------------- non-vacuity ---------------- *)
 (* Two layers through the external-TOC converter, updates interleaved, layer 1 recorded twice (retry): descriptors
    describe the blobs, both digests are served by the image with their own TOC. *)
